@@ -56,6 +56,7 @@ type FuncContract struct {
 }
 
 type GhostVar struct {
+	Mono bool
 	Name string
 	Type string
 	Init string
@@ -233,6 +234,10 @@ func (cs *Contracts) parseFile(fname, pkg, prefix string) {
 				if i := strings.Index(tail, "="); i >= 0 {
 					g.Init = strings.TrimSpace(tail[i+1:])
 					tail = strings.TrimSpace(tail[:i])
+				}
+				if strings.HasSuffix(tail, " nondecreasing") {
+					g.Mono = true
+					tail = strings.TrimSpace(strings.TrimSuffix(tail, " nondecreasing"))
 				}
 				g.Type = tail
 				if old, ok := cs.Ghosts[g.Name]; ok && old.Type != g.Type {
